@@ -786,7 +786,11 @@ def lean_str(s):
     return '"' + "".join(out) + '"'
 
 
-def gen(repo, outdir, selftest_out=None):
+def gen(repo, outdir, selftest_out=None, failures=None):
+    """`failures`: when a dict is passed, a leaf that cannot be located/translated no longer aborts the whole translation:
+    the failure is recorded under its Gen module (`failures[mod] = "file:line: message"`), that module's file is put back
+    to the committed (validated) version, and every other module is generated as usual.  Only the properties whose proofs
+    import a failed module then have a broken tie (the caller decides); constants and identity field lists stay global."""
     src = pathlib.Path(repo) / "src" / "zeroconf"
     trees = {}
 
@@ -797,6 +801,14 @@ def gen(repo, outdir, selftest_out=None):
                 trees[rel] = ast.parse(p.read_text())
             except (OSError, SyntaxError) as ex:
                 raise Fail("cannot parse: %s" % ex, file=rel)
+            # a function that equals its validated baseline up to a bijective renaming of local variables is read with
+            # the baseline's spelling (tools/alpha.py): locators are keyed on source text, the meaning is unchanged
+            try:
+                import alpha
+
+                alpha.normalise(trees[rel], rel)
+            except ImportError:
+                pass
         return trees[rel]
 
     # ---- constants
@@ -867,6 +879,7 @@ def gen(repo, outdir, selftest_out=None):
     by_mod = {}
     selftests = []
     for mod, lname, rel, qual, loc, params, rty, opts in load_leaves():
+      try:
         t = tree(rel)
         fenv = per_file.get(rel, (cenv, {}))[0] if rel in per_file else module_consts(t, cenv)[0]
         try:
@@ -939,6 +952,15 @@ def gen(repo, outdir, selftest_out=None):
         )
         selftests.append({"mod": mod, "lean": lname, "file": rel, "qual": qual, "expr": ast.unparse(e),
                           "params": [list(p) for p in params], "rty": rty, "opts": opts})
+      except Fail as f:
+        if failures is None:
+            raise
+        if f.file is None:
+            f.file = rel
+        failures.setdefault(mod, "%s:%s: %s" % (f.file, getattr(f.node, "lineno", "?") if f.node is not None else "?", f.msg))
+    for mod in list(failures or {}):
+        by_mod.pop(mod, None)
+        selftests[:] = [x for x in selftests if x["mod"] != mod]
     for mod, defs in by_mod.items():
         files[mod + ".lean"] = (
             "/- GENERATED by tools/gen_lean.py from /repo/src/zeroconf -- do not edit -/\nimport Zc.Gen.Const\nnamespace Zc.Gen.%s\nopen Zc.Gen\n\n" % mod
@@ -1018,9 +1040,22 @@ def gen(repo, outdir, selftest_out=None):
     changed = []
     for name, text in files.items():
         p = outdir / name
+        if text is None:
+            continue
         if not p.exists() or p.read_text() != text:
             p.write_text(text)
             changed.append(name)
+    for mod in (failures or {}):
+        # a module with a leaf that no longer translates keeps its committed (validated) text
+        import subprocess
+
+        r = subprocess.run(["git", "show", "HEAD:lean/Zc/Gen/%s.lean" % mod], cwd=str(ROOT), stdout=subprocess.PIPE, stderr=subprocess.DEVNULL)
+        if r.returncode == 0:
+            files[mod + ".lean"] = None
+            q = outdir / (mod + ".lean")
+            if not q.exists() or q.read_bytes() != r.stdout:
+                q.write_bytes(r.stdout)
+                changed.append(mod + ".lean(committed)")
     for p in outdir.glob("*.lean"):
         if p.name not in files:
             p.unlink()
